@@ -44,9 +44,10 @@ Hypothesis Hlen : forall x, length (H x) = 32%nat.
 
 Lemma flag_ok_new d s m gen : flag_ok H d s m (new_flag gen).
 Proof.
-  unfold flag_ok, new_flag. cbn [fhash fdirty]. split.
+  unfold flag_ok, new_flag. cbn [fhash fdirty]. split; [|split].
   - intros h E. discriminate E.
   - intros E. discriminate E.
+  - intros _ E. discriminate E.
 Qed.
 
 Lemma lzf_nil_inv d s x : lzf H d s NNil x -> x = NNil.
@@ -72,16 +73,18 @@ Qed.
 Lemma flag_ok_dec d sized m hash gen :
   canon m = true -> all_fits H m -> covers H d m ->
   (forall h, hash = Some h -> h = H (spec_enc H m) /\ (sized = true -> big H m = true) /\ stored H d m) ->
+  (hash = None -> sized = true /\ big H m = false) ->
   flag_ok H d sized m (mkFlag hash gen false).
 Proof.
-  intros Hc Hfit Hcov Hh. unfold flag_ok. cbn [fhash fdirty]. split.
+  intros Hc Hfit Hcov Hh Hn. unfold flag_ok. cbn [fhash fdirty]. split; [|split].
   - intros h E. destruct (Hh h E) as (A & B & _). split; assumption.
   - intros _. split; [exact Hc|]. split; [exact Hfit|]. split; [exact Hcov|].
     intros h E. destruct (Hh h E) as (_ & _ & C). exact C.
+  - intros E _. exact (Hn E).
 Qed.
 
 Lemma dec_child_lzf d gen c : child_shape c -> all_fits H c -> cov1 H (stored H d) c ->
-  (canon c = true -> lzf H d true c (dec_node H gen None c)) ->
+  (canon c = true -> big H c = false -> lzf H d true c (dec_node H gen None c)) ->
   lzf H d true c (dec_child H gen c) /\ hash_big H c (dec_child H gen c).
 Proof.
   intros [->|[[v ->]|Hc]] Hfit [Hst Hcov] IH.
@@ -90,15 +93,16 @@ Proof.
   - rewrite (dec_child_canon H gen c Hc). destruct (big H c) eqn:Eb.
     + split; [|intros h _; exact Eb]. apply lzf_hash. unfold avail.
       split; [exact Hc|]. split; [exact Hfit|]. split; [apply Hst; [exact Hc|reflexivity]|exact Hcov].
-    + split; [apply IH; exact Hc|]. intros h E. exfalso. exact (dec_node_neq_hash H gen None c h Hc E).
+    + split; [apply IH; [exact Hc|reflexivity]|]. intros h E. exfalso. exact (dec_node_neq_hash H gen None c h Hc E).
 Qed.
 
 Lemma dec_lzf_gen d gen : forall m, canon m = true -> all_fits H m -> covers H d m ->
   forall sized hash,
   (forall h, hash = Some h -> h = H (spec_enc H m) /\ (sized = true -> big H m = true) /\ stored H d m) ->
+  (hash = None -> sized = true /\ big H m = false) ->
   lzf H d sized m (dec_node H gen hash m).
 Proof.
-  induction m as [|k c f IH|cs f IH|h|v] using node_ind'; intros Hc Hfit Hcov sized hash Hh;
+  induction m as [|k c f IH|cs f IH|h|v] using node_ind'; intros Hc Hfit Hcov sized hash Hh Hn;
     try discriminate Hc.
   - rewrite dec_node_short.
     assert (Hs : child_shape c).
@@ -107,7 +111,9 @@ Proof.
       - right. right. exact Hcc. }
     pose proof Hfit as [_ Hfitc]. pose proof (proj1 (covers_p_short H (stored H d) k c f) Hcov) as Hcov1.
     destruct (dec_child_lzf d gen c Hs Hfitc Hcov1) as [U B].
-    { intros Hcc. apply IH; [exact Hcc|exact Hfitc|exact (proj2 Hcov1)|]. intros h E. discriminate E. }
+    { intros Hcc Hsm. apply IH; [exact Hcc|exact Hfitc|exact (proj2 Hcov1)| |].
+      - intros h E. discriminate E.
+      - intros _. split; [reflexivity|exact Hsm]. }
     apply lzf_short; [exact U|exact B|]. apply flag_ok_dec; assumption.
   - rewrite dec_node_full. pose proof (canon_full_children _ _ Hc) as Hs.
     pose proof (proj1 (all_fits_full H cs f) Hfit) as [_ Hfits].
@@ -115,8 +121,9 @@ Proof.
     assert (HF : Forall (fun c => lzf H d true c (dec_child H gen c) /\ hash_big H c (dec_child H gen c)) cs).
     { rewrite Forall_forall in *. intros x Hin.
       apply dec_child_lzf; [apply Hs; exact Hin|apply Hfits; exact Hin|apply Hcovs; exact Hin|].
-      intros Hcx. apply (IH x Hin); [exact Hcx|apply Hfits; exact Hin|exact (proj2 (Hcovs x Hin))|].
-      intros h E. discriminate E. }
+      intros Hcx Hsm. apply (IH x Hin); [exact Hcx|apply Hfits; exact Hin|exact (proj2 (Hcovs x Hin))| |].
+      - intros h E. discriminate E.
+      - intros _. split; [reflexivity|exact Hsm]. }
     apply lzf_full.
     + apply Forall2_map_r. eapply Forall_impl; [|exact HF]. cbv beta. tauto.
     + apply Forall2_map_r. eapply Forall_impl; [|exact HF]. cbv beta. tauto.
@@ -128,14 +135,17 @@ Lemma dec_lzf d gen sized m : avail H d m -> (sized = true -> big H m = true) ->
   lzf H d sized m (dec_node H gen (Some (H (spec_enc H m))) m).
 Proof.
   intros (Hc & Hfit & Hst & Hcov) Hb. apply dec_lzf_gen; try assumption.
-  intros h E. injection E as <-. split; [reflexivity|]. split; assumption.
+  - intros h E. injection E as <-. split; [reflexivity|]. split; assumption.
+  - intros E. discriminate E.
 Qed.
 
 (* an embedded child decoded in place *)
-Lemma dec_lzf_embedded d gen c : canon c = true -> all_fits H c -> covers H d c ->
+Lemma dec_lzf_embedded d gen c : canon c = true -> all_fits H c -> covers H d c -> big H c = false ->
   lzf H d true c (dec_node H gen None c).
 Proof.
-  intros Hc Hfit Hcov. apply dec_lzf_gen; try assumption. intros h E. discriminate E.
+  intros Hc Hfit Hcov Hsm. apply dec_lzf_gen; try assumption.
+  - intros h E. discriminate E.
+  - intros _. split; [reflexivity|exact Hsm].
 Qed.
 
 (* ------------------------------------------------------------------ delete *)
@@ -172,7 +182,8 @@ Proof.
     destruct cm as [|k c f|cs f|h|v]; try discriminate Hc.
     + cbn [resolve bind] in E. injection E as <- <-. rewrite dec_node_short.
       exists (NShort (posb :: k) (dec_child H gen c) (new_flag gen)). split; [reflexivity|]. split; [|reflexivity].
-      pose proof (dec_lzf_embedded d gen _ Hc Hfit Hcov) as Ld. rewrite dec_node_short in Ld.
+      pose proof (dec_lzf d gen false _ Ha (fun E0 : false = true => False_ind _ (Bool.diff_false_true E0))) as Ld.
+      rewrite dec_node_short in Ld.
       inversion Ld as [ | | | s1 k1 c1 x1 f1 f1' Hu1 Hb1 Hfl1 | ]; subst.
       apply lzf_short; [exact Hu1|exact Hb1|apply flag_ok_new].
     + cbn [resolve bind] in E. injection E as <- <-. rewrite dec_node_full.
